@@ -283,7 +283,7 @@ func (c *Ctx) errPropagated(call ssa.CallInstruction) (bool, string) {
 			nonNil = b.Succs[1]
 		}
 		// every path from nonNil must hit a return of e before anything else notable
-		q := PathQuery{StartBlock: nonNil, StartPred: b, NonNil: map[ssa.Value]bool{e: true}, Cut: func(i ssa.Instruction) bool {
+		q := PathQuery{StartBlock: nonNil, StartPred: b, NonNil: map[ssa.Value]bool{e: true, rel.X: true}, Cut: func(i ssa.Instruction) bool {
 			return returnsErr(e, i)
 		}, Goal: func(i ssa.Instruction) bool {
 			if IsReturn(i) {
